@@ -3,11 +3,12 @@
     mapped to OCaml's; N, Z, positive, nat stay the extracted datatypes. *)
 Require Extraction.
 Require Import ExtrOcamlBasic.
-Require Import Model.Bytes Model.FieldDef Gen.FieldTable Model.RefTable Model.Fields Model.Spill Model.Policy Model.Validate.
+Require Import Model.Bytes Model.FieldDef Gen.FieldTable Model.RefTable Model.Fields Model.Spill Model.Policy Model.Validate Model.Stream Model.HeaderParse.
 Extraction Blacklist String List Bytes Char Int.
 Extraction "model.ml"
   FieldTable.field_table FieldTable.required_fields RefTable.reference_table RefTable.reference_required
   Bytes.itoa Bytes.z_of_dec Bytes.atoi
   Fields.frun Fields.srun Fields.normalize_name Fields.m_write Fields.s_write
   Spill.b_run Spill.p_run Spill.new_buf
-  Validate.validate_header Validate.spec_accepts Validate.type_accepts.
+  Validate.validate_header Validate.spec_accepts Validate.type_accepts
+  Fields.m_add HeaderParse.parse_fields HeaderParse.serialize.
